@@ -846,6 +846,14 @@ func ruleL3(c *Ctx) {
 							guarded = true
 						}
 					}
+					// the same test written as a comma-ok assertion: if _, ok := err.(*EvalError); !ok { ... }
+					if ex, ok := cond.(*ssa.Extract); ok && ex.Index == 1 && pc.Branch == neg {
+						if ta, ok := ex.Tuple.(*ssa.TypeAssert); ok && ta.CommaOk {
+							if pt, ok := ta.AssertedType.(*types.Pointer); ok && isNamed(pt.Elem(), "starlark", "EvalError") {
+								guarded = true
+							}
+						}
+					}
 				}
 				if guarded {
 					c.ok(key, pos, "in Call's body (the frame is still on the stack), guarded by !is[*EvalError](err)")
